@@ -21,7 +21,8 @@ import (
 type heightSpec struct {
 	st    int    // state whose installed height is the base
 	delta int64  // added to it
-	rev   uint64 // revision number (the clients only ever store revision 0)
+	rev   uint64 // added to the client's revision number
+	lower bool   // the revision before the client's (only for clients whose revision is not 0)
 	abs   bool   // use absVal instead
 	absV  uint64
 }
@@ -269,6 +270,17 @@ func allKinds() []kind {
 		{"height/no-root-rev1", func(g *gen) *caseSpec {
 			c := g.trueBase("")
 			c.claim.hs.rev = 1
+			return c
+		}},
+		{"height/lower-revision/honest-for-the-root-stored-there", func(g *gen) *caseSpec {
+			// the client keeps, from the revision before, a state at the block number of stOld whose root is stBoundary's
+			c := g.honestCase("", stBoundary, g.pickTrue(stBoundary))
+			c.claim.hs = heightSpec{st: stOld, lower: true}
+			return c
+		}},
+		{"height/lower-revision/proof-for-the-current-revision's-root", func(g *gen) *caseSpec {
+			c := g.honestCase("", stOld, g.pickTrue(stOld))
+			c.claim.hs = heightSpec{st: stOld, lower: true}
 			return c
 		}},
 		{"height/zero", func(g *gen) *caseSpec {
